@@ -30,6 +30,9 @@ CATALOGUE = {
     "kb": ({"type": "Text", "length": [[1, 2, False]]}, 2, ["x", "y"], [""]),
     # values that differ only in where the blank sits: distinct keys in every format (fixed: 'x ' / ' x' once padded)
     "kl": ({"type": "Text", "length": [[1, 2, False]]}, 2, ["x", " x", "y", " y"], [""]),
+    # keys holding a tab: ("so\tuth", "lee") and ("so", "uth\tlee") are different keys although their texts joined by a tab are equal
+    "kt1": ({"type": "Text", "length": [[1, 6, False]]}, 6, ["so\tuth", "so", "x"], [""]),
+    "kt2": ({"type": "Text", "length": [[1, 7, False]]}, 7, ["lee", "uth\tlee"], [""]),
     "kc": ({"type": "Integer", "rule": {"items": [[0, 9, False]]}}, 1, ["1", "2"], ["z"]),
     "v": ({"type": "Text", "length": [[1, 1, True]]}, 1, ["p", "q", "r", "s", "t"], [""]),
     "memo": ({"type": "Text", "length": [[1, 40, False]]}, 32, ["\nbig  red\n\nbox", "very  fragile\u2028handle with care\x85", "a\tb c"], [""]),
@@ -83,7 +86,7 @@ def store(config, decls, table, name="data"):
     """Store the table in the config's format. -> (source for the reader, basename expected in messages)."""
     fmt = decls[0]["fmt"]
     if fmt == "delimited":
-        delimiter = ";" if config["preset"] == "delimited_de" else ","
+        delimiter = ";" if config["preset"] in ("delimited_de", "delimited_comma") else ","
         stream = io.StringIO()
         writer = csv.writer(stream, delimiter=delimiter, quotechar='"', lineterminator="\n", quoting=csv.QUOTE_MINIMAL)
         for row in table:
